@@ -2,7 +2,9 @@
 From Relay Require Import Base.Prelude Model.Lifetime.
 Open Scope Z_scope.
 
-Ltac unfold_consts := unfold pong_wait, ping_period, slack, ns_per_s, max_ttl, two63 in *.
+Ltac unfold_consts :=
+  change slack with 6000000000 in *; change ping_period with 54000000000 in *;
+  change pong_wait with 60000000000 in *; unfold ns_per_s, max_ttl, two63 in *.
 
 Lemma ns_pos : 0 < ns_per_s.
 Proof. unfold ns_per_s; lia. Qed.
@@ -247,20 +249,15 @@ Proof.
   destruct (deadline c <? tau) eqn:E2; cbn [status]; [lia|rewrite Es; exact Hs].
 Qed.
 
-Lemma alive_closed_step f np out np' out' c e tau :
-  alive f np out c -> (exists r a, status c = Closed r a) -> alive f np' out' (apply_ev c e tau).
-Proof.
-  intros [Hf Hs] (r & a & Ec). split; [rewrite apply_ev_fire; exact Hf|].
-  unfold apply_ev. rewrite Ec. rewrite Ec in Hs. exact Hs.
-Qed.
-
 Definition wf (np : Z) (out : option Z) : Prop :=
   match out with Some p => np = p + ping_period | None => True end.
 
 (* what [timely] demands of the head of the list, and the window it hands to the rest *)
 Lemma timely_head np out e tau r :
   timely np out ((e, tau) :: r) = true ->
-  benign e = true /\ tau < window_end np out /  exists np' out', timely np' out' r = true /    match e, out with
+  benign e = true /\ tau < window_end np out /\
+  exists np' out', timely np' out' r = true /\
+    match e, out with
     | EPing, None => tau = np /\ np' = np + ping_period /\ out' = Some tau
     | EPong, Some p => p <= tau /\ np' = np /\ out' = None
     | EPong, None => np' = np /\ out' = None
